@@ -499,12 +499,13 @@ def frame_diff(exp, got):
 
 def scenario_features(scn):
     """Input-only classification used by the known-finding classes."""
-    f = {'interleaved_variable_rows': False, 'ids_outside_int32': False, 'mixed_element_sizes': False,
+    f = {'interleaved_variable_rows': False, 'ids_outside_int32': False, 'element_ids_outside_int32': False, 'mixed_element_sizes': False,
          'frame_without_z': False, 'flat_geometry_after_3d_geometry': False, 'duplicate_pairs': False}
     seen3d = False
     for op in scn['ops']:
         mf = mesh_features(scn['meshes'][op['mesh']])
         f['ids_outside_int32'] |= mf['ids_outside_int32']
+        f['element_ids_outside_int32'] |= mf['element_ids_outside_int32']
         f['duplicate_pairs'] |= mf['duplicate_pairs']
         if op['op'] == 'set':
             f['ids_outside_int32'] |= any(not (I32MIN <= v <= I32MAX) for v in op['ids'])
@@ -635,8 +636,10 @@ def gen_mesh(rng, kind=None, order=None, ids=None, nan_ok=True):
             return I32MAX - 3 * k - (1 if what == 'n' else 0)
         if ids == 'negative':
             return (k - 2) * 5
-        if ids == 'outside':        # node ids outside int32 (element ids outside make the export raise)
+        if ids == 'outside':        # node ids outside int32
             return (I32MAX + 1 + 11 * k) if (what == 'n' and k % 2 == 0) else (k + 1)
+        if ids == 'outside_e':      # an element id outside int32 (the export raises OverflowError)
+            return (I32MAX + 5 + k) if (what == 'e' and k == 0) else (k + 1)
         raise ValueError(ids)
     perm_n = list(range(npool))
     rng.shuffle(perm_n)
@@ -734,7 +737,7 @@ def gen_scenario(rng, flavour=None):
         if flavour == 'interleaved':
             order = 'interleaved'
         elif flavour == 'outside':
-            ids = 'outside'
+            ids = rng.choice(['outside', 'outside', 'outside_e'])
         elif flavour == 'mixed':
             kind = rng.choice(['mixed2d', 'mixed3d'])
         elif flavour == 'noz':
